@@ -426,7 +426,11 @@ def judge_project(ctx, seed, n_ann, task_pattern):
 AOEF_EDITS = ["none", "reorder_matches", "drop_match_ref", "dup_match_ref", "match_both_null", "other_clip", "score_out_of_range", "affinity_out_of_range",
               "prediction_score_out_of_range", "predicted_tag_score_out_of_range", "clip_reversed", "clip_eval_score_out_of_range",
               # additive edits: an otherwise complete document gains one EXTRA invalid member, listed by its owner
-              "extra_null_match_listed", "extra_prediction_out_of_range_listed", "extra_predicted_tag_out_of_range"]
+              "extra_null_match_listed", "extra_prediction_out_of_range_listed", "extra_predicted_tag_out_of_range",
+              # ... and a duplicate of an existing [tag, score] pair, with an out-of-range score, listed BEFORE the valid one,
+              # on each kind of owner (sound event / clip / sequence prediction)
+              "duplicate_predicted_tag_out_of_range_first:sound_event_predictions", "duplicate_predicted_tag_out_of_range_first:clip_predictions",
+              "duplicate_predicted_tag_out_of_range_first:sequence_predictions"]
 
 
 def judge_aoef_evaluation(ctx, seed, edit):
@@ -535,6 +539,15 @@ def judge_aoef_evaluation(ctx, seed, edit):
         if cand:
             sp = rng.choice(cand)
             sp["tags"].append([sp["tags"][0][0], rng.choice([1.5, -0.25])])
+            want = False
+        else:
+            applicable = False
+    elif edit.startswith("duplicate_predicted_tag_out_of_range_first:"):
+        owners = [o for o in (d.get(edit.split(":", 1)[1]) or []) if o.get("tags")]
+        if owners:
+            o = rng.choice(owners)
+            j = rng.randrange(len(o["tags"]))
+            o["tags"].insert(rng.randint(0, j), [o["tags"][j][0], rng.choice([1.7, -0.3, 1.0000001])])
             want = False
         else:
             applicable = False
